@@ -1,5 +1,7 @@
 // Support code for the translation units generated from TLC-emitted stack descriptors (lib/gen_stack.py).
 #pragma once
+#include <cstring>
+#include <new>
 #include <cstdio>
 #include <sstream>
 #include <string>
